@@ -3,6 +3,7 @@
 package main
 
 import (
+	"context"
 	storetypes "cosmossdk.io/store/types"
 	perpkeeper "github.com/elys-network/elys/x/perpetual/keeper"
 	levkeeper "github.com/elys-network/elys/x/leveragelp/keeper"
@@ -109,6 +110,7 @@ type TxSpec struct {
 	Msgs   []sdk.Msg // messages
 	Fee    sdk.Coins
 	Ev     *Event // event record describing it (args filled by the driver)
+	Evs    []*Event // composite transaction: one event record per message (Ev describes the transaction as a whole if it fails)
 }
 
 // Chain drives one real ElysApp through ABCI and records observations.
@@ -137,6 +139,8 @@ type Chain struct {
 	ProbeDenoms []string
 	ProbeAssets []string
 	Registry bool // project module parameters (scene option)
+	composite map[int]bool // transactions of the block being processed that carry several observed messages
+	msgSeen   map[int]int
 	Mempool  bool // C19: behave like a node with a mempool and an RPC: CheckTx and Simulate every transaction before the block
 	RestartEveryBlock bool // C19: re-instantiate the application from its database after every committed block
 }
@@ -208,10 +212,35 @@ func (c *Chain) buildApp() *elysapp.ElysApp {
 		}
 		return r, err
 	})
+	// the message router consults its circuit breaker before EVERY message (the application installs none): an observation
+	// point between the messages of one transaction, on the transaction's own branch
+	a.MsgServiceRouter().SetCircuit(&msgObserver{c: c})
 	if err := a.LoadLatestVersion(); err != nil {
 		panic(err)
 	}
 	return a
+}
+
+type msgObserver struct{ c *Chain }
+
+func (m *msgObserver) IsAllowed(goCtx context.Context, _ string) (bool, error) {
+	c := m.c
+	if c.NoObs || c.Rec == nil || c.composite == nil {
+		return true, nil
+	}
+	ctx := sdk.UnwrapSDKContext(goCtx)
+	if ctx.IsCheckTx() || ctx.IsReCheckTx() || ctx.ExecMode() != sdk.ExecModeFinalize || len(ctx.TxBytes()) == 0 {
+		return true, nil
+	}
+	i, found := c.txIndex[string(ctx.TxBytes())]
+	if !found || !c.composite[i] {
+		return true, nil
+	}
+	c.msgSeen[i]++
+	if c.msgSeen[i] > 1 { // the state before message k (k >= 2) is the state after message k-1
+		c.obs = append(c.obs, &Obs{Kind: "Msg", OK: true, Tx: i, ID: uint64(c.msgSeen[i] - 1), State: c.Project(unmetered(ctx))})
+	}
+	return true, nil
 }
 
 // Restart re-instantiates the application from its database (node restart).
@@ -327,6 +356,7 @@ func (c *Chain) NextBlock(dt int64) (outs []txOutcome) {
 	seqs := map[string]uint64{}
 	c.txIndex = map[string]int{}
 	var txs [][]byte
+	c.composite, c.msgSeen = map[int]bool{}, map[int]int{}
 	specs := c.pending
 	c.pending = nil
 	rctx := c.ReadCtx()
@@ -363,6 +393,9 @@ func (c *Chain) NextBlock(dt int64) (outs []txOutcome) {
 		}
 		txs = append(txs, bz)
 		c.txIndex[string(bz)] = len(txs) - 1
+		if len(s.Evs) > 1 && len(s.Evs) == len(s.Msgs) {
+			c.composite[len(txs)-1] = true
+		}
 	}
 	if c.Mempool {
 		// what a validator with a mempool and clients estimating gas does before the block arrives; none of it may influence
@@ -494,12 +527,22 @@ func (c *Chain) abciEvents(evs []abci.Event) []map[string]string {
 				}
 			}
 		}
-		if e.Type == "complete_unbonding" {
-			if cs, err := sdk.ParseCoinsNormalized(m["amount"]); err == nil && len(cs) == 1 {
-				m["amt"], m["denom"] = cs[0].Amount.String(), cs[0].Denom
-			} else {
+		if e.Type == "complete_unbonding" || e.Type == "withdraw_rewards" { // one record per coin paid to the delegator
+			cs, err := sdk.ParseCoinsNormalized(m["amount"])
+			if err != nil || len(cs) == 0 {
 				m["amt"], m["denom"] = "0", ""
+				out = append(out, m)
+				continue
 			}
+			for _, coin := range cs {
+				mm := map[string]string{}
+				for k, v := range m {
+					mm[k] = v
+				}
+				mm["amt"], mm["denom"] = coin.Amount.String(), coin.Denom
+				out = append(out, mm)
+			}
+			continue
 		}
 		out = append(out, m)
 	}
@@ -515,6 +558,7 @@ var interestingEvent = map[string]bool{
 	"leveragelp_position_open": true, "leveragelp_position_close": true, "leveragelp_position_liquidation": true, "leveragelp_position_stop_loss": true,
 	"swap_failed": true,
 	"complete_unbonding": true, // staking's end blocker pays matured unbondings back to the delegator
+	"withdraw_rewards":   true, // distribution pays a delegator's pending rewards whenever its delegation changes (estaking's end blocker does that)
 }
 
 func (c *Chain) emitBlock(specs []TxSpec, res *abci.ResponseFinalizeBlock, hash []byte) {
@@ -582,8 +626,16 @@ func (c *Chain) emitBlock(specs []TxSpec, res *abci.ResponseFinalizeBlock, hash 
 			ev.Args["fee"] = coinsMap(specs[o.Tx].Fee)
 			c.Rec.Line("Ante", c.Height, c.Time.Unix(), o.Tx, ev, o.State)
 			last = o.State
+		case "Msg":
+			// between two messages of a composite transaction: emitted (below, with the Tx observation) only if the whole transaction succeeded
 		case "Tx":
 			flush(o.Tx)
+			if c.composite[o.Tx] && o.OK && res.TxResults[o.Tx].Code == 0 {
+				c.emitComposite(o.Tx, specs[o.Tx], res.TxResults[o.Tx], o.State)
+				last = o.State
+				next = o.Tx + 1
+				continue
+			}
 			if o.OK && res.TxResults[o.Tx].Code != 0 {
 				// the messages and the post handler succeeded, yet the transaction failed afterwards (BaseApp charges the block gas
 				// meter between the post handler and the write of the message cache: "out of gas in location: block gas meter"):
@@ -611,6 +663,53 @@ func (c *Chain) emitBlock(specs []TxSpec, res *abci.ResponseFinalizeBlock, hash 
 	ev := newEvent("Commit", "")
 	ev.Args["hash"] = fmt.Sprintf("%x", hash)
 	c.Rec.Line("Commit", c.Height, c.Time.Unix(), -1, ev, last)
+}
+
+// emitComposite writes a successful composite transaction as one Tx line PER MESSAGE: message k with its own event record, the
+// events BaseApp tagged msg_index = k-1, its own response, and the state observed right after it (before message k+1 / in
+// the post handler for the last one).  Every per-message contract therefore applies unchanged.
+func (c *Chain) emitComposite(i int, spec TxSpec, r *abci.ExecTxResult, final map[string]any) {
+	states := map[int]map[string]any{}
+	for _, o := range c.obs {
+		if o.Kind == "Msg" && o.Tx == i {
+			states[int(o.ID)] = o.State // state after message number o.ID (1-based)
+		}
+	}
+	var md sdk.TxMsgData
+	haveResp := len(r.Data) > 0 && proto.Unmarshal(r.Data, &md) == nil && len(md.MsgResponses) == len(spec.Msgs)
+	n := len(spec.Msgs)
+	for k := 1; k <= n; k++ {
+		ev := spec.Evs[k-1]
+		ev.OK, ev.Stage, ev.Code, ev.Log = true, "msgs", 0, ""
+		ev.Args["composite"] = fmt.Sprintf("%d/%d", k, n)
+		var mine []abci.Event
+		for _, e := range r.Events {
+			idx := ""
+			for _, a := range e.Attributes {
+				if a.Key == "msg_index" {
+					idx = a.Value
+				}
+			}
+			if idx == fmt.Sprintf("%d", k-1) {
+				mine = append(mine, e)
+			}
+		}
+		ev.Abci = c.abciEvents(mine)
+		if haveResp {
+			one := sdk.TxMsgData{MsgResponses: md.MsgResponses[k-1 : k]}
+			if bz, err := proto.Marshal(&one); err == nil {
+				c.decodeResp(ev, &abci.ExecTxResult{Code: 0, Data: bz})
+			}
+		}
+		st := final
+		if k < n {
+			st = states[k]
+			if st == nil {
+				panic(fmt.Sprintf("composite transaction %d: no observation after message %d", i, k))
+			}
+		}
+		c.Rec.Line("Tx", c.Height, c.Time.Unix(), i, ev, st)
+	}
 }
 
 // positionsAltered: did the set of positions or any position's size / collateral / debt change between two projected states?
